@@ -27,7 +27,7 @@ manifest = {
     "setup_cmd": "./setup.sh",
     "hooks": {
         "guard": "verif",
-        "enable": "harness files carry //go:build verif and are compiled into the witness module with go test -c -tags verif -overlay (no file of /repo is replaced); no source hooks were needed",
+        "enable": "harness files carry //go:build verif and are compiled into the witness module with go test -c -tags verif -overlay (no file of /repo is replaced or added); the one piece of instrumentation inside a program of the repository, cmd/omniwitness reading its log configuration from the file named by VERIF_CONFIG_LOGS (C06 part 'binary'), is also a verif-tagged overlay file (/verif/harness/omnibin/hook.go, virtual path cmd/omniwitness/zz_verif_hook.go); no commits in /repo were needed for hooks",
         "baseline_off_cmd": "cd /repo && go test -mod=mod -vet=off -count=1 -timeout 25m ./...",
         "source_commits": HOOK_COMMITS,
         "add_only": True,
